@@ -317,6 +317,31 @@ Definition spec_markers (tb : table) (q : list gene) (minm : nat) (t : tree) (p 
         inq q u'
   end.
 
+(* ---------------- which unknown markers demand an error (declarative, from the ORIGINAL table) ---------------- *)
+Definition in_parents (t : tree) (p : pkey) : bool := existsb (pkey_eqb p) (all_parents t).
+
+(* the listed entry of p never reaches the reference check as listed: it is replaced by its patched
+   version, which is restricted to query genes.  That happens exactly for a non-root parent of the tree
+   with >= 2 children, fewer than min usable own markers and something to patch with (an ancestor that
+   is a key of the table, or the root entry) *)
+Definition entry_replaced (tb : table) (q : list gene) (minm : nat) (t : tree) (p : pkey) : bool :=
+  match p with
+  | None => false
+  | Some (li, x) =>
+      in_parents t p && (2 <=? length (children t p))%nat && (n_usable q (entry tb p) <? minm)%nat &&
+      (negb (is_nil (anc_lists tb t li x)) || match tget None tb with Some _ => true | None => false end)
+  end.
+
+(* g, listed under key k, is unknown to the reference and must end the run with an error: the documented
+   exception is a gene absent from the query too, in an entry that is replaced *)
+Definition demands_error (tb : table) (refg q : list gene) (minm : nat) (t : tree) (k : pkey) (g : gene) : bool :=
+  negb (zmem g refg) && (zmem g q || negb (entry_replaced tb q minm t k)).
+
+(* the (key, gene) pairs of the parents of the tree that demand the error *)
+Definition unknown_demanded (tb : table) (refg q : list gene) (minm : nat) (t : tree) : list (pkey * gene) :=
+  flat_map (fun kl => map (fun g => (fst kl, g)) (filter (demands_error tb refg q minm t (fst kl)) (snd kl)))
+           (filter (fun kl => in_parents t (fst kl)) tb).
+
 (* ---------------- wire ---------------- *)
 Definition sx_pkey (x : sx) : option pkey := sx_parent x.
 Definition of_pkey (k : pkey) : sx :=
@@ -408,4 +433,14 @@ Definition run_used (x : sx) : sx :=
                                                 (used ch r q (fst g))])
                          (c_groups ch))
       | _, _, _ => sx_bad end
+  | _ => sx_bad end.
+(* tag 808: (tree table ref query min) -> the (key, gene) pairs, listed under parents of the tree, that are
+   unknown to the reference and demand an error (unknown_demanded) *)
+Definition run_unknown_demanded (x : sx) : sx :=
+  match x with
+  | L [a; b; c; d; e] =>
+      match sx_tree a, sx_table b, sx_LZ c, sx_LZ d, sx_nat e with
+      | Some t, Some tb, Some r, Some q, Some m =>
+          sx_ok (of_list (fun kg => L [of_pkey (fst kg); I (snd kg)]) (unknown_demanded tb r q m t))
+      | _, _, _, _, _ => sx_bad end
   | _ => sx_bad end.
